@@ -123,7 +123,7 @@ def one_run(cfg, prefix, template):
             st = S.make_sched_storage(sch, d, lockreg, mutlog)
             get_ix = lambda: st.open_index()
         else:
-            st = RamStorage()
+            st = S.make_sched_ram_storage(sch)
             ix0 = st.create_index(schema())
             w = ix0.writer()
             w.add_document(key=u"init", text=u"t init")
@@ -173,40 +173,47 @@ def one_run(cfg, prefix, template):
             if o.get("second_writer_granted"):
                 outcome["problems"].append(("two-writers", "a second writer was granted while the first was open"))
         if ok:
-            # end state oracle
-            ix = get_ix()
-            with ix.searcher() as s:
-                keys = sorted(sf["key"] for sf in s.all_stored_fields())
-            expect = set([u"init"])
-            ncommit = 0
-            # fold successful commits; deletes refer to 'init' only, order irrelevant
-            for i, spec in enumerate(cfg["writers"]):
-                if outs[i].get("committed"):
-                    ncommit += 1
-                    expect.add(spec["key"])
-            for i, spec in enumerate(cfg["writers"]):
-                if outs[i].get("committed") and spec.get("delete"):
-                    expect.discard(spec["delete"])
-            if keys != sorted(expect):
-                outcome["problems"].append(("lost-update", "final documents %r, fold of successful commits %r"
-                                            % (keys, sorted(expect))))
-            gen = ix.latest_generation()
-            base = cfg.get("base_generation", 1)
-            if gen != base + ncommit:
-                outcome["problems"].append(("generation", "latest_generation()=%r after %d successful commits on base %d"
-                                            % (gen, ncommit, base)))
-            for i, spec in enumerate(cfg["writers"]):
-                if outs[i].get("lockerror") and spec["timeout"] == 0 and False:
-                    pass
-            # afterwards the index must be writable: lock released by every ending
-            try:
-                w = ix.writer()
-                w.cancel()
-            except Exception as e:
-                outcome["problems"].append(("lock-not-released", "a fresh writer cannot be opened afterwards: %r" % (e,)))
-            outcome["keys"] = keys
-            outcome["commits"] = ncommit
-            outcome["lockerrors"] = sum(1 for i in outs if outs[i].get("lockerror"))
+          try:
+              # end state oracle
+              ix = get_ix()
+              with ix.searcher() as s:
+                  keys = sorted(sf["key"] for sf in s.all_stored_fields())
+              expect = set([u"init"])
+              ncommit = 0
+              # fold successful commits; deletes refer to 'init' only, order irrelevant
+              for i, spec in enumerate(cfg["writers"]):
+                  if outs[i].get("committed"):
+                      ncommit += 1
+                      expect.add(spec["key"])
+              for i, spec in enumerate(cfg["writers"]):
+                  if outs[i].get("committed") and spec.get("delete"):
+                      expect.discard(spec["delete"])
+              if keys != sorted(expect):
+                  outcome["problems"].append(("lost-update", "final documents %r, fold of successful commits %r"
+                                              % (keys, sorted(expect))))
+              gen = ix.latest_generation()
+              base = cfg.get("base_generation", 1)
+              if gen != base + ncommit:
+                  outcome["problems"].append(("generation", "latest_generation()=%r after %d successful commits on base %d"
+                                              % (gen, ncommit, base)))
+              for i, spec in enumerate(cfg["writers"]):
+                  if outs[i].get("lockerror") and spec["timeout"] == 0 and False:
+                      pass
+              # afterwards the index must be writable: lock released by every ending
+              try:
+                  w = ix.writer()
+                  w.cancel()
+              except Exception as e:
+                  outcome["problems"].append(("lock-not-released", "a fresh writer cannot be opened afterwards: %r" % (e,)))
+              outcome["keys"] = keys
+              outcome["commits"] = ncommit
+              outcome["lockerrors"] = sum(1 for i in outs if outs[i].get("lockerror"))
+          except Exception as e:
+            tb = traceback.extract_tb(e.__traceback__)
+            fr = [f for f in tb if "/whoosh/" in f.filename] or list(tb)
+            outcome["problems"].append(("end-state-exc:%s" % type(e).__name__,
+                                        "after all writers finished, reading the index raised %r at %s:%s"
+                                        % (e, fr[-1].filename.split("/")[-1], fr[-1].name)))
     except S.Divergence:
         raise
     except Exception as e:
@@ -269,12 +276,26 @@ def explore_cfg(cfg, bound, max_execs, acc):
     s2, o2 = one_run(cfg, [], template)
     if [(_t, _lab(l)) for _t, l in s1.trace] != [(_t, _lab(l)) for _t, l in s2.trace]:
         raise core.HarnessError("non-deterministic replay of the default schedule for %s" % cfg["name"])
-    stats = S.explore(make_run, bound, max_execs, on_exec)
-    acc.count("states", stats["decisions"])
-    if stats["capped"]:
+    # iterative preemption bounding: complete bound 0, then 1, ... up to the
+    # target; the largest bound whose exploration finished under the cap is
+    # what this configuration is covered to
+    completed = -1
+    stats = None
+    for b in range(0, bound + 1):
+        st_b = S.explore(make_run, b, max_execs, on_exec)
+        stats = st_b
+        acc.count("states", st_b["decisions"])
+        if st_b["capped"]:
+            break
+        completed = b
+    if completed < bound:
+        acc.count("configs_below_target_bound")
+    if completed < 1:
         acc.count("capped_configs")
     acc.count("configs")
-    acc.sample({"config": cfg["name"], "preemption_bound": bound, "executions": stats["executions"],
+    acc.count("bound%d_completed" % max(completed, 0))
+    acc.sample({"config": cfg["name"], "preemption_bound_completed": completed, "target_bound": bound,
+                "executions_at_last_bound": stats["executions"],
                 "distinct_outcomes": [[list(k[0]), k[1], k[2], n] for k, n in sorted(outcomes.items(), key=repr)][:8],
                 "default_schedule": [(t, _lab(l)) for t, l in s1.trace][:40]})
     acc.count("distinct_outcomes", len(outcomes))
@@ -346,7 +367,7 @@ def run(ctx):
         three = len(cfg["writers"]) == 3
         if ctx.tier == "quick":
             bound = 1 if three else 2
-            cap = 4000
+            cap = 5000
         else:
             bound = 2 if three else 3
             cap = 60000
@@ -364,7 +385,11 @@ def run(ctx):
                        "LockError is legitimate whenever the lock was held at every attempt of the polling loop"]
     ctx.pmap(task, tasks)
     if ctx.counters.get("capped_configs"):
-        ctx.cap("%d configurations hit the execution cap" % ctx.counters["capped_configs"])
+        ctx.cap("%d configurations hit the execution cap before completing preemption bound 1" % ctx.counters["capped_configs"])
+    ctx.extra["note_bounds"] = ("every configuration is explored completely for preemption bounds 0..k where k is the "
+                                "largest bound finishing under the execution cap; counters bound<k>_completed say how "
+                                "many configurations reached which k; configs_below_target_bound did not reach the "
+                                "tier's target bound")
 
 
 def replay(case):
